@@ -49,7 +49,9 @@ def build(rng, tier):
                             # lattice programs: every second schedule seed runs the Lean side through the PARALLEL physical-index model with lattices (Model/EnginePhysParLat.lean: CRelFullIndex key
                             # index, CLatIndex row-number sets, get_cloned look-up chain, join under the row lock, re-queue unless found in `new`); iteration counts are not compared (live reads)
                             runop = [f"eng runpp {inst} {t}", f"eng dump {inst}", f"eng iters {inst}"] if kind == "rel" else \
-                                    ([f"eng runppl {inst} {t}", f"eng dump {inst}"] if kind == "lat" and sd % 2 == 1 else [f"eng run {inst}", f"eng dump {inst}"])
+                                    ([f"eng runppl {inst} {t}", f"eng dump {inst}"] if kind == "lat" and sd % 2 == 1 else
+                                     # aggregation programs: every second seed through the parallel physical model (aggregates read the concurrent index the plan chose)
+                                     ([f"eng runpp {inst} {t}", f"eng dump {inst}"] if kind == "agg" and sd % 2 == 1 and not has_agg_over_lat(p) else [f"eng run {inst}", f"eng dump {inst}"]))
                             ops = [f"eng perturb {1 + r2.below(10 ** 9)}", f"eng new {inst} {pid} par {t}"] + engcheck.load_ops(inst, inp) + runop + ["eng perturb 0"]
                             cases.append(engcheck.Case(pid, inst, ops, {"inp": inp, "kind": f"{kind}{'+irp' if irp else ''}", "threads": t,
                                                                        "was": "F5" if kind == "lat" and has_agg_over_lat(p) else None}))
